@@ -185,6 +185,8 @@ class Gen:
         w('#include <boost/msm/front/operator.hpp>')
         w('#include <boost/msm/front/row2.hpp>')
         w('#include <boost/msm/front/internal_row.hpp>')
+        if self.variant == 'euml':
+            w('#include <boost/msm/front/euml/euml.hpp>')
         w('#include <memory>')
         w('namespace mpl = boost::mpl;')
         w()
@@ -195,7 +197,7 @@ class Gen:
             b = bases.get(ev, 'vf::EvBase')
             if ev in zoo:
                 b = 'vf::Zoo<%d,%d,%d>' % tuple(zoo[ev])
-            w('struct %s : %s {' % (ev, b))
+            w('struct %s : %s%s {' % (ev, b, (', boost::msm::front::euml::euml_event<%s>' % ev) if self.variant == 'euml' else ''))
             w('    %s() {}' % ev)
             w('    explicit %s(int i) : %s(i) {}' % (ev, b))
             if ev in exit_events:
@@ -205,6 +207,15 @@ class Gen:
             w('};')
         for f in sp.get('flags', []):
             w('struct %s {};' % f)
+        if self.variant == 'euml':
+            for ev in sp['events']:
+                w('static %s const %s_ei;' % (ev, ev))
+            w('template <int A, int I> struct GdE : boost::msm::front::euml::euml_action<GdE<A, I> > {')
+            w('    template <class Ev, class Fsm, class S, class T> bool operator()(Ev const& e, Fsm& f, S& s, T& t) const { return vf::Gd<A, I>()(e, f, s, t); }')
+            w('};')
+            w('template <int I> struct ActE : boost::msm::front::euml::euml_action<ActE<I> > {')
+            w('    template <class Ev, class Fsm, class S, class T> void operator()(Ev const& e, Fsm& f, S& s, T& t) const { vf::Act<I>()(e, f, s, t); }')
+            w('};')
         w()
         w('namespace vf {')
         w('const SiteInfo& guard_site(int i) {')
@@ -270,6 +281,8 @@ class Gen:
             base = 'boost::msm::front::exit_pseudo_state<%s, VB>' % s['event']
         else:
             raise ValueError(k)
+        if self.variant == 'euml':
+            base += ', boost::msm::front::euml::euml_state<%s>' % cn
         w('struct %s : %s {' % (cn, base))
         w('    static const char* vf_site() { return "%s"; }' % site)
         w('#if defined(VF_SERIALIZE)')
@@ -296,6 +309,34 @@ class Gen:
             w('        ' + ',\n        '.join(self.internal_expr(r) for r in s['internal']))
             w('    > {};')
         w('};')
+        if self.variant == 'euml':
+            w('static %s const %s_ei;' % (cn, cn))
+
+    # ------------------------------------------------------------ eUML transition-table expression (C14)
+    def euml_guard(self, g, sites, parent=None):
+        if isinstance(g, int):
+            return 'GdE<%d,%d>()' % (g, next(sites))
+        if g[0] == 'not':
+            return '!' + self.euml_guard(g[1], sites, 'not')
+        a = self.euml_guard(g[1], sites, g[0])
+        b = self.euml_guard(g[2], sites, g[0])
+        txt = '%s %s %s' % (a, '&&' if g[0] == 'and' else '||', b)
+        # the C++ operators build the expression: parentheses exactly where the tree needs them
+        if (parent == 'and' and g[0] == 'or') or parent == 'not':
+            return '(' + txt + ')'
+        return txt
+
+    def euml_row(self, m, r):
+        assert not isinstance(r['src'], tuple) and r['ev'] not in (None, 'any') and r['actions'] != 'Defer', 'not expressible here'
+        t = '%s_ei + %s_ei' % (cname(m['name'], r['src']), r['ev'])
+        if r['guard'] is not None:
+            t += ' [%s]' % self.euml_guard(r['guard'], iter(r['_gsites']))
+        if r['_asites']:
+            acts = ['ActE<%d>()' % i for i in r['_asites']]
+            t += ' / ' + (acts[0] if len(acts) == 1 else '(' + ', '.join(acts) + ')')
+        if r['tgt'] is not None:
+            t += ' == %s_ei' % cname(m['name'], r['tgt'])
+        return t
 
     def ser_optin(self, mn, sn):
         """which states / front-ends opt in to serialization of their data (about half of them)"""
@@ -355,9 +396,14 @@ class Gen:
                 w('    typedef boost::mpl::vector<%s > deferred_events;' % ','.join(ps['deferred']))
         for line in self.member_fns(m):
             w(line)
-        w('    struct transition_table : boost::mpl::vector<')
-        w('        ' + ',\n        '.join(self.row_expr(m, r) for r in m['table']))
-        w('    > {};')
+        if self.variant == 'euml':
+            w('    BOOST_MSM_EUML_DECLARE_TRANSITION_TABLE((')
+            w('        ' + ',\n        '.join(self.euml_row(m, r) for r in m['table']))
+            w('    ), transition_table)')
+        else:
+            w('    struct transition_table : boost::mpl::vector<')
+            w('        ' + ',\n        '.join(self.row_expr(m, r) for r in m['table']))
+            w('    > {};')
         if m['internal']:
             w('    struct internal_transition_table : boost::mpl::vector<')
             w('        ' + ',\n        '.join((self.member_internal_expr(r, mn + '_') if self.member_ok(r) else self.internal_expr(r))
